@@ -376,12 +376,14 @@ def c19(inp, rep):
             continue
         # trace conformance: the sequence of states shown to the validity callback(s) over the whole history
         rep.count("validity_calls_compared", env.valid_calls)
+        # (information, not a verdict: the statement is about what is RETURNED; a binding that asks the
+        # callbacks one more or one less question and still returns the core's answer keeps the property)
         if env.valid_calls != exp["valid_calls"] or env.valid_hash != exp["valid_hash"]:
-            rep.violate("%s|validity-trace-differs" % pl, "the sequence of states passed to the validity callback differs between Python and the Rust core", det)
-            continue
+            rep.count("validity_trace_mismatches")
+        else:
+            rep.count("validity_traces_identical")
         if env.pred_calls != exp["goal_pred_calls"] or env.sample_calls != exp["goal_sample_calls"]:
-            rep.violate("%s|goal-call-counts-differ" % pl, "goal predicate / sampler call counts differ", det)
-            continue
+            rep.count("goal_call_count_mismatches")
         if len(rep.samples) < 6:
             rep.samples.append({"scenario": sc["id"], "results": [c[0] for c in calls], "path_states": [len(c[1]) for c in calls], "validity_calls": env.valid_calls, "validity_trace_hash": "%016x" % env.valid_hash})
     wrappers(inp["wrappers"], rep)
@@ -549,8 +551,7 @@ def c20(inp, rep):
                         rep.violate(cls + "|differs-from-returning-False", "a %s callback that %s does not behave like one returning False (results %r vs %r)" % (target, {"raise": "raises", "none": "returns None", "int": "returns 1", "str": "returns 'x'"}[kind], res, ref_res), det)
                         continue
                     if env.valid_calls != ref_env.valid_calls or env.valid_hash != ref_env.valid_hash:
-                        rep.violate(cls + "|trace-differs-from-returning-False", "the validity-query trace differs from the run in which the callback returns False", det)
-                        continue
+                        rep.count("traces_differing_from_returning_False")  # information only: the statement is about the result
                     if env.struck:
                         struck = env.struck_now
                         for r1, pbits in zip(res, pbits_all):
